@@ -72,6 +72,7 @@ type SliceV struct {
 
 // StrV: concrete string, symbolic byte array (Arr[Off..Off+Len)), or rope of pieces.
 type StrV struct {
+	ID    *Term // Int identity of a symbolic string (Arr/Off/Len are then str.arr(ID), 0, str.len(ID))
 	Conc  *string
 	Arr   *Term // Array Int Byte
 	Off   *Term
